@@ -316,6 +316,16 @@ void snoopy_configuration_dtor ()
         CFG->syslog_ident_format_malloced = SNOOPY_FALSE;                 /* Set this to false         - REQUIRED (see above) */
         CFG->syslog_ident_format          = SNOOPY_SYSLOG_IDENT_FORMAT;   /* Set this to default value - REQUIRED (see above) */
     }
+
+    /*
+     * Reset all the other (non-malloc()-ed) settings too
+     *
+     * When thread safety is disabled, this structure is static and outlives the current
+     * exec() call. Without the reset, syslog_facility, syslog_level, error_logging and both
+     * message length limits configured for one call would stay in force for all subsequent
+     * calls of this process, even after they get removed from the configuration file.
+     */
+    snoopy_configuration_setDefaults(CFG);
 }
 
 
